@@ -354,6 +354,14 @@ func runHistory(h *History) *RunReport {
 		op   int
 	}
 	var earlier []kept
+	// ASTs returned by earlier Parse calls, with their rendering at return time: using the
+	// parser again must not change a tree it handed out before
+	type keptAST struct {
+		ast  jmespath.ASTNode
+		text string
+		op   int
+	}
+	var earlierASTs []keptAST
 	lastFailed := map[string]bool{}
 	saltChanged := false
 	add := func(v Violation) { rep.Violations = append(rep.Violations, v) }
@@ -464,6 +472,12 @@ func runHistory(h *History) *RunReport {
 					hstats.dirtyBufCandidates++
 				}
 			}
+			if got.Kind == "value" && len(src) < 160 {
+				earlierASTs = append(earlierASTs, keptAST{ast: got.ast, text: safePretty(got.ast), op: i})
+				if len(earlierASTs) > 6 {
+					earlierASTs = earlierASTs[1:]
+				}
+			}
 			if !sameParse(&got, &refs[i].parse) {
 				add(Violation{Prop: "C13", Class: "parser-reuse", Sig: "parse",
 					Detail: fmt.Sprintf("op %d of the history: reused parser P%d on %q gave %s; a fresh parser gives %s", i, op.Obj, src, parseString(&got), parseString(&refs[i].parse))})
@@ -481,11 +495,36 @@ func runHistory(h *History) *RunReport {
 				break
 			}
 		}
+		for _, k := range earlierASTs {
+			if k.op == i {
+				continue
+			}
+			if now := safePretty(k.ast); now != k.text {
+				add(Violation{Prop: "C13", Class: "ast-clobbered", Sig: "parse",
+					Detail: fmt.Sprintf("the AST returned by op %d (%s) changed after op %d (%s): it was %s and now reads %s", k.op, opString(h, &h.Ops[k.op]), i, opString(h, op),
+						strings.Join(strings.Fields(k.text), " "), strings.Join(strings.Fields(now), " "))})
+				earlierASTs = nil
+				break
+			}
+		}
 		if len(rep.Violations) > 0 {
 			return rep
 		}
 	}
 	return rep
+}
+
+// safePretty renders an AST with the library's own PrettyPrint (instrumented code: the
+// step budget is suspended, panics are contained).
+func safePretty(ast jmespath.ASTNode) (out string) {
+	simrt.RefMode(0)
+	defer simrt.RefMode(opStepCap)
+	defer func() {
+		if r := recover(); r != nil {
+			out = fmt.Sprintf("<PrettyPrint panicked: %v>", r)
+		}
+	}()
+	return ast.PrettyPrint(0)
 }
 
 func parseString(o *hOutcome) string {
